@@ -490,7 +490,8 @@ def bits(ctx):
         raise AnchorLost("emission in SubscriptionOptions::encode")
     out += _or_tree_check(ctx, "subscription_options", so, "codec::subscribe::SubscriptionOptions", flags["subscription_options"], {}, expr=symex(so, val))
     # PublishRx decoder: setter(arg) expressions
-    pd = ctx.body(r"codec::publish::PublishRx as core::utils::TryDecode>::try_decode$")
+    from r_codec_rx import rx_decoders
+    pd = rx_decoders(ctx)["PublishRx"][1]       # private helpers (e.g. a flag-parsing function) inlined
     hdr_expect = {"dup": ("mask", 1 << want["dup"]), "retain": ("mask", 1 << want["retain"])}
     for i, t in pd.calls(r"PublishRxBuilder::(dup|retain)$"):
         which = callee_name(t).split("::")[-1]
@@ -507,7 +508,8 @@ def bits(ctx):
             out.append(Inst("BITS", "publish-decode:qos", qos_ok, pd.site(i), "QoS decoded as (header >> %s) & %s" % (sh, mk), "(header >> %d) & 3" % want["qos"]))
     # type nibble extraction in RxPacket::try_decode and the outbound handler
     for fn_re, what in ((r"codec::packet::RxPacket as core::utils::TryDecode>::try_decode$", "dispatch"),):
-        rb = ctx.body(fn_re)
+        from r_codec_rx import flat_decoder
+        rb = flat_decoder(ctx, ctx.body(fn_re), "codec::packet::RxPacket")      # a private dispatch helper is looked at in place
         found = False
         for i in sorted(rb.reach):
             t = rb.term(i)
